@@ -875,16 +875,23 @@ def balance_rule(ctx):
     for f in fns:
         A.summary(f)
     n = 0
+    called = set()
+    for q, cs in A.calls.items():
+        called |= {c for c in cs if c != q}
     for f in fns:
         summ = A.summaries[f.qual]
         probs = list(A.problems.get(f.qual, []))
         bad = sorted(x for x in summ if x != ("", ""))
-        if bad:
-            probs.append("some path leaves the emitted text unbalanced: %s" % ", ".join("closes `%s` it never opened / leaves `%s` open" % b for b in bad[:4]))
+        is_root = f.qual not in called
+        if bad and is_root:
+            # name the innermost functions whose own text is unbalanced, for diagnosis
+            inner = sorted(q for q, sm in A.summaries.items() if any(x != ("", "") for x in sm) and not any(any(y != ("", "") for y in A.summaries.get(c, ())) for c in A.calls.get(q, ()) if c != q))
+            probs.append("the text emitted from this entry point is unbalanced on some path (%s); unbalanced text originates in %s" % (", ".join("closes `%s` it never opened / leaves `%s` open" % b for b in bad[:3]), inner[:4]))
         if f.qual not in A.nontrivial and not probs:
             continue
         n += 1
-        obs.append(ob("C02.balance/%s" % f.qual, not probs, ctx.where(f), "; ".join(probs) if probs else "every path writes bracket-balanced text (holes and callees balanced by induction; local string buffers inlined where pasted)",
+        note = "" if not bad or is_root else " (this helper opens/closes brackets for its callers: %s - balanced where it is used)" % bad[:2]
+        obs.append(ob("C02.balance/%s" % f.qual, not probs, ctx.where(f), "; ".join(probs) if probs else "every path writes bracket-balanced text (holes balanced by induction; callees' effects and local string buffers inlined where pasted)" + note,
                       witness=None if not probs else "a template that drives generation down this path yields JavaScript with a missing or surplus bracket"))
     if n < 20:
         obs.append(ob("C02.floor/balance", False, "proc_gen/*.rs", "only %d emitters with bracket text analysed (floor 20)" % n))
